@@ -1,5 +1,694 @@
-import Ink.Native
+/-
+  C04 — Story faults are reported as errors; the runtime never panics; integer
+  arithmetic wraps to 32 bits; after an error a reset story is a fresh story.
+-/
+import Proofs.C13
+import Proofs.C17
+
 namespace Ink
 namespace C04
+
+open Story
+
+/-! ### 1. Two's-complement wrap -/
+
+theorem wrapI32_inRange (n : Int) : inI32 (wrapI32 n) = true := by
+  unfold inI32 wrapI32 i32Min i32Max
+  simp only [Bool.and_eq_true, decide_eq_true_eq]
+  omega
+
+theorem wrapI32_of_inRange {n : Int} (h : inI32 n = true) : wrapI32 n = n := by
+  unfold inI32 i32Min i32Max at h
+  simp only [Bool.and_eq_true, decide_eq_true_eq] at h
+  unfold wrapI32
+  omega
+
+theorem wrapI32_congr (n : Int) : ∃ k : Int, wrapI32 n = n + k * 4294967296 := by
+  refine ⟨-((n + 2147483648) / 4294967296), ?_⟩
+  unfold wrapI32
+  omega
+
+/-- The wrap is the unique in-range representative of the residue class. -/
+theorem wrapI32_unique {n m : Int} (hm : inI32 m = true) (k : Int) (h : m = n + k * 4294967296) :
+    wrapI32 n = m := by
+  unfold inI32 i32Min i32Max at hm
+  simp only [Bool.and_eq_true, decide_eq_true_eq] at hm
+  unfold wrapI32
+  omega
+
+theorem inI32_iff {n : Int} : inI32 n = true ↔ (-2147483648 ≤ n ∧ n ≤ 2147483647) := by
+  unfold inI32 i32Min i32Max
+  simp only [Bool.and_eq_true, decide_eq_true_eq]
+
+example : wrapI32 (2147483647 + 1) = -2147483648 := by decide
+example : wrapI32 (-2147483648 - 1) = 2147483647 := by decide
+example : wrapI32 (65536 * 65536) = 0 := by decide
+example : wrapI32 (-(-2147483648)) = -2147483648 := by decide
+example : inI32 2147483647 = true ∧ inI32 2147483648 = false := by decide
+
+/-! ### 2. Integer arithmetic of the native calls wraps -/
+
+theorem int_add_wraps (defs : ListDefs) (x y : Int) :
+    Native.call defs .add [.val (.int x), .val (.int y)] = .ok (.val (.int (wrapI32 (x + y)))) := rfl
+
+theorem int_sub_wraps (defs : ListDefs) (x y : Int) :
+    Native.call defs .subtract [.val (.int x), .val (.int y)] = .ok (.val (.int (wrapI32 (x - y)))) := rfl
+
+theorem int_mul_wraps (defs : ListDefs) (x y : Int) :
+    Native.call defs .multiply [.val (.int x), .val (.int y)] = .ok (.val (.int (wrapI32 (x * y)))) := rfl
+
+theorem int_neg_wraps (defs : ListDefs) (x : Int) :
+    Native.call defs .negate [.val (.int x)] = .ok (.val (.int (wrapI32 (-x)))) := rfl
+
+example : Native.call [] .add [.val (.int 2147483647), .val (.int 1)] = .ok (.val (.int (-2147483648))) := by
+  rw [int_add_wraps]; rfl
+example : Native.call [] .multiply [.val (.int 65536), .val (.int 65536)] = .ok (.val (.int 0)) := by
+  rw [int_mul_wraps]; rfl
+example : Native.call [] .subtract [.val (.int (-2147483648)), .val (.int 1)] = .ok (.val (.int 2147483647)) := by
+  rw [int_sub_wraps]; rfl
+example : Native.call [] .negate [.val (.int (-2147483648))] = .ok (.val (.int (-2147483648))) := by
+  rw [int_neg_wraps]; rfl
+
+/-! ### 3. Division and remainder -/
+
+/-- Reduction of an integer binary call to `Native.binary`. -/
+theorem call_int_int (defs : ListDefs) (op : Op) (h : op.arity = 2) (x y : Int) :
+    Native.call defs op [.val (.int x), .val (.int y)] =
+      (match Native.binary op (.int x) (.int y) with
+       | .ok v => .ok (.val v)
+       | .err k m => .err k m
+       | .panic s => .panic s) := by
+  unfold Native.call
+  simp only [h, List.length_cons, List.length_nil]
+  rfl
+
+theorem int_div_defined (defs : ListDefs) {x y : Int} (hy : y ≠ 0) (hov : ¬(x = i32Min ∧ y = -1)) :
+    Native.call defs .divide [.val (.int x), .val (.int y)] = .ok (.val (.int (Int.tdiv x y))) := by
+  rw [call_int_int defs .divide rfl]
+  have hc : ¬(y = 0 ∨ (x = i32Min ∧ y = -1)) := by
+    intro h; rcases h with h | h
+    · exact hy h
+    · exact hov h
+  simp only [Native.binary, hc, if_false]
+
+theorem int_div_fault (defs : ListDefs) {x y : Int} (h : y = 0 ∨ (x = i32Min ∧ y = -1)) :
+    ∃ m, Native.call defs .divide [.val (.int x), .val (.int y)] = .err "InvalidStoryState" m := by
+  rw [call_int_int defs .divide rfl]
+  simp only [Native.binary, h, if_true, Out.invalid]
+  exact ⟨_, rfl⟩
+
+theorem int_mod_defined (defs : ListDefs) {x y : Int} (hy : y ≠ 0) (hov : ¬(x = i32Min ∧ y = -1)) :
+    Native.call defs .mod [.val (.int x), .val (.int y)] = .ok (.val (.int (Int.tmod x y))) := by
+  rw [call_int_int defs .mod rfl]
+  have hc : ¬(y = 0 ∨ (x = i32Min ∧ y = -1)) := by
+    intro h; rcases h with h | h
+    · exact hy h
+    · exact hov h
+  simp only [Native.binary, hc, if_false]
+
+theorem int_mod_fault (defs : ListDefs) {x y : Int} (h : y = 0 ∨ (x = i32Min ∧ y = -1)) :
+    ∃ m, Native.call defs .mod [.val (.int x), .val (.int y)] = .err "InvalidStoryState" m := by
+  rw [call_int_int defs .mod rfl]
+  simp only [Native.binary, h, if_true, Out.invalid]
+  exact ⟨_, rfl⟩
+
+example : Native.call [] .divide [.val (.int 7), .val (.int (-2))] = .ok (.val (.int (-3))) :=
+  int_div_defined [] (by decide) (by decide)
+example : Native.call [] .mod [.val (.int (-7)), .val (.int 2)] = .ok (.val (.int (-1))) :=
+  int_mod_defined [] (by decide) (by decide)
+example : ∃ m, Native.call [] .divide [.val (.int 1), .val (.int 0)] = .err "InvalidStoryState" m :=
+  int_div_fault [] (Or.inl rfl)
+example : ∃ m, Native.call [] .divide [.val (.int i32Min), .val (.int (-1))] = .err "InvalidStoryState" m :=
+  int_div_fault [] (Or.inr ⟨rfl, rfl⟩)
+example : ∃ m, Native.call [] .mod [.val (.int 1), .val (.int 0)] = .err "InvalidStoryState" m :=
+  int_mod_fault [] (Or.inl rfl)
+example : ∃ m, Native.call [] .mod [.val (.int i32Min), .val (.int (-1))] = .err "InvalidStoryState" m :=
+  int_mod_fault [] (Or.inr ⟨rfl, rfl⟩)
+
+/-! ### 4. Integer results stay inside the 32-bit range -/
+
+theorem tdiv_inRange {x y : Int} (hx : inI32 x = true) (hov : ¬(x = i32Min ∧ y = -1)) :
+    inI32 (Int.tdiv x y) = true := by
+  rw [inI32_iff] at hx ⊢
+  unfold i32Min at hov
+  by_cases h1 : y = 1
+  · subst h1; rw [Int.tdiv_one]; exact hx
+  · by_cases h2 : y = -1
+    · subst h2
+      rw [show (-1 : Int) = -(1 : Int) from rfl, Int.tdiv_neg, Int.tdiv_one]
+      omega
+    · by_cases h0 : y = 0
+      · subst h0; simp
+      · have hk : (Int.tdiv x y).natAbs = x.natAbs / y.natAbs := Int.natAbs_tdiv x y
+        have hy2 : 2 ≤ y.natAbs := by omega
+        have hle : x.natAbs / y.natAbs ≤ x.natAbs / 2 := Nat.div_le_div_left hy2 (by decide)
+        omega
+
+theorem tmod_inRange {x : Int} (hx : inI32 x = true) (y : Int) : inI32 (Int.tmod x y) = true := by
+  rw [inI32_iff] at hx ⊢
+  have hk : (Int.tmod x y).natAbs = x.natAbs % y.natAbs := Int.natAbs_tmod x y
+  have hle : x.natAbs % y.natAbs ≤ x.natAbs := Nat.mod_le _ _
+  have hs : 0 ≤ x → 0 ≤ Int.tmod x y := fun h => Int.tmod_nonneg y h
+  have hn : x ≤ 0 → Int.tmod x y ≤ 0 := by
+    intro h
+    have h1 : 0 ≤ Int.tmod (-x) y := Int.tmod_nonneg y (by omega)
+    rw [Int.neg_tmod] at h1
+    omega
+  omega
+
+/-- Every integer result of a binary operation on two in-range integers is in
+    range (`y` in range is not even needed). -/
+theorem int_results_inRange {op : Op} {x y z : Int} (hx : inI32 x = true) (hy : inI32 y = true)
+    (h : Native.binary op (.int x) (.int y) = .ok (.int z)) : inI32 z = true := by
+  cases op <;> simp only [Native.binary, Native.notAvailable, Out.invalid, Out.ok.injEq, Val.int.injEq,
+    reduceCtorEq] at h
+  · -- add
+    cases h; exact wrapI32_inRange _
+  · -- subtract
+    cases h; exact wrapI32_inRange _
+  · -- divide
+    split at h
+    · cases h
+    · rename_i hc
+      cases h
+      exact tdiv_inRange hx (fun hh => hc (Or.inr hh))
+  · -- multiply
+    cases h; exact wrapI32_inRange _
+  · -- mod
+    split at h
+    · cases h
+    · cases h; exact tmod_inRange hx y
+  · -- min
+    cases h; split <;> assumption
+  · -- max
+    cases h; split <;> assumption
+
+theorem int_unary_inRange {defs : ListDefs} {op : Op} {x z : Int} (hx : inI32 x = true)
+    (h : Native.unary defs op (.int x) = .ok (.int z)) : inI32 z = true := by
+  cases op <;> simp only [Native.unary, Native.notAvailable, Out.invalid, Out.ok.injEq, Val.int.injEq,
+    reduceCtorEq] at h
+  · cases h; exact wrapI32_inRange _
+  · cases h; exact hx
+  · cases h; exact hx
+  · cases h; exact hx
+
+/-- `f32 as i32` (saturating) lands in range, by the bounds of `Int32`. -/
+theorem toI32_inRange (f : Float32) : inI32 (F32.toI32 f) = true := by
+  rw [inI32_iff]
+  unfold F32.toI32
+  have h1 := Int32.le_toInt f.toInt32
+  have h2 := Int32.toInt_lt f.toInt32
+  omega
+
+/-- The unary operations that go through a float (`INT(f)`) also give in-range integers. -/
+theorem float_unary_inRange {defs : ListDefs} {op : Op} {f : Float32} {z : Int}
+    (h : Native.unary defs op (.float f) = .ok (.int z)) : inI32 z = true := by
+  cases op <;> simp only [Native.unary, Native.notAvailable, Out.invalid, Out.ok.injEq, Val.int.injEq,
+    reduceCtorEq] at h
+  cases h; exact toI32_inRange f
+
+example : inI32 (Int.tdiv (-2147483648) 1) = true := tdiv_inRange (by decide) (by decide)
+example : Native.binary .divide (.int (-2147483648)) (.int 1) = .ok (.int (-2147483648)) := rfl
+example : Native.unary [] .negate (.int (-2147483648)) = .ok (.int (-2147483648)) := rfl
+
+/-! ### 5. Native calls never panic -/
+
+theorem binary_no_panic (op : Op) (a b : Val) (s : String) : Native.binary op a b ≠ .panic s := by
+  unfold Native.binary
+  split <;> first
+    | (intro h; cases h)
+    | (split <;> (intro h; cases h))
+
+theorem unary_no_panic (defs : ListDefs) (op : Op) (a : Val) (s : String) :
+    Native.unary defs op a ≠ .panic s := by
+  unfold Native.unary
+  split <;> (intro h; cases h)
+
+theorem isTruthy_no_panic (v : Val) (s : String) : v.isTruthy ≠ .panic s := by
+  cases v <;> (intro h; cases h)
+
+/-- A cast to a destination type at or above the value's own ordinal never
+    panics (the `parse().unwrap()` of a string is only reached for a lower type). -/
+theorem cast_no_panic (v : Val) (dest : Nat) (h : v.castOrdinal ≤ dest) (s : String) :
+    v.cast dest ≠ .panic s := by
+  cases v <;> simp only [Val.cast, Val.castOrdinal, Out.invalid] at h ⊢
+  all_goals (repeat' split) <;> first
+    | (intro h'; cases h'; done)
+    | omega
+
+/-- One step of the fold in `Native.destType`. -/
+def destStep (d : Nat) (o : Obj) : Nat :=
+  match o with
+  | .val v => if v.castOrdinal > d then v.castOrdinal else d
+  | _ => d
+
+theorem destType_eq (ps : List Obj) : Native.destType ps = ps.foldl destStep 1 := rfl
+
+theorem destStep_ge (d : Nat) (o : Obj) : d ≤ destStep d o := by
+  unfold destStep
+  split
+  · split <;> omega
+  · exact Nat.le_refl _
+
+/-- The fold of `destType` is at least its start value and at least the cast
+    ordinal of every value in the list. -/
+theorem destFold_ge (ps : List Obj) (d : Nat) :
+    d ≤ ps.foldl destStep d ∧ ∀ v, Obj.val v ∈ ps → v.castOrdinal ≤ ps.foldl destStep d := by
+  induction ps generalizing d with
+  | nil => exact ⟨Nat.le_refl _, fun v hv => by cases hv⟩
+  | cons p ps ih =>
+    simp only [List.foldl_cons]
+    obtain ⟨i1, i2⟩ := ih (destStep d p)
+    refine ⟨Nat.le_trans (destStep_ge d p) i1, ?_⟩
+    intro v hv
+    rcases List.mem_cons.mp hv with hv | hv
+    · subst hv
+      refine Nat.le_trans ?_ i1
+      simp only [destStep]
+      split <;> omega
+    · exact i2 v hv
+
+/-- `coerce_values_to_single_type` chooses a destination no value has to be cast down to. -/
+theorem destType_ge (ps : List Obj) (v : Val) (hv : Obj.val v ∈ ps) : v.castOrdinal ≤ Native.destType ps := by
+  rw [destType_eq]; exact (destFold_ge ps 1).2 v hv
+
+theorem coerceAll_no_panic (dest : Nat) (ps : List Obj)
+    (h : ∀ v, Obj.val v ∈ ps → v.castOrdinal ≤ dest) :
+    ∀ s, Native.coerceAll dest ps ≠ .panic s := by
+  induction ps with
+  | nil => intro s h'; cases h'
+  | cons p ps ih =>
+    have ih' := ih (fun v hv => h v (List.mem_cons_of_mem _ hv))
+    cases p with
+    | val v =>
+      have hc := cast_no_panic v dest (h v (List.mem_cons_self ..))
+      intro s
+      unfold Native.coerceAll
+      split
+      · split
+        · intro h'; cases h'
+        · intro h'; cases h'
+        · rename_i s' heq
+          exact absurd heq (ih' s')
+      · intro h'; cases h'
+      · rename_i s' heq
+        exact absurd heq (hc s')
+    | _ => intro s h'; cases h'
+
+theorem coerceAll_length (dest : Nat) (ps : List Obj) (vs : List Val)
+    (h : Native.coerceAll dest ps = .ok vs) : vs.length = ps.length := by
+  induction ps generalizing vs with
+  | nil => cases h; rfl
+  | cons p ps ih =>
+    cases p with
+    | val v =>
+      unfold Native.coerceAll at h
+      split at h
+      · split at h
+        · rename_i vs' heq
+          cases h
+          simp only [List.length_cons, ih vs' heq]
+        · cases h
+        · cases h
+      · cases h
+      · cases h
+    | _ => cases h
+
+theorem binaryList_no_panic (defs : ListDefs) (op : Op) (v0 v1 : Val) (s : String) :
+    Native.binaryList defs op (.val v0) (.val v1) ≠ .panic s := by
+  unfold Native.binaryList
+  split
+  · intro h; cases h
+  · intro h; cases h
+  · rename_i w0 w1 _ _
+    split
+    · split
+      · split
+        · split
+          · split
+            · intro h; cases h
+            · intro h; cases h
+            · rename_i s' heq; exact absurd heq (isTruthy_no_panic _ s')
+          · intro h; cases h
+        · split
+          · intro h; cases h
+          · split
+            · intro h; cases h
+            · intro h; cases h
+            · rename_i s' heq; exact absurd heq (isTruthy_no_panic _ s')
+      · intro h; cases h
+      · rename_i s' heq; exact absurd heq (isTruthy_no_panic _ s')
+    · split
+      · exact binary_no_panic _ _ _ s
+      · intro h; cases h
+  · rename_i hne _ _
+    exact absurd rfl (hne v0 v1 rfl)
+
+/-- **The runtime never panics in a native call**: on values (or void) every
+    fault — wrong types, wrong arity, void operand, undefined division — is an
+    `err`.  The three `panic` sites of `Ink/Native.lean` are unreachable. -/
+theorem native_call_no_panic (defs : ListDefs) (op : Op) (ps : List Obj)
+    (hps : ∀ p ∈ ps, (∃ v, p = .val v) ∨ p = .void) : ∀ s, Native.call defs op ps ≠ .panic s := by
+  intro s
+  have hco : ∀ s', Native.coerceAll (Native.destType ps) ps ≠ .panic s' :=
+    coerceAll_no_panic _ ps (fun v hv => destType_ge ps v hv)
+  unfold Native.call
+  split
+  · intro h; cases h
+  · split
+    · intro h; cases h
+    · rename_i hvoid
+      have hval : ∀ p ∈ ps, ∃ v, p = .val v := by
+        intro p hp
+        rcases hps p hp with hv | hv
+        · exact hv
+        · subst hv
+          exfalso; apply hvoid
+          exact List.any_eq_true.mpr ⟨_, hp, rfl⟩
+      rcases ps with _ | ⟨p0, _ | ⟨p1, _ | ⟨p2, rest⟩⟩⟩
+      · intro h; cases h
+      · simp only
+        split
+        · split
+          · intro h; cases h
+          · intro h; cases h
+          · rename_i s' heq; exact absurd heq (unary_no_panic _ _ _ s')
+        · rename_i vs hne heq
+          have hl := coerceAll_length _ _ _ heq
+          match vs, hl, hne with
+          | [a], _, hne => exact absurd rfl (hne a)
+        · intro h; cases h
+        · rename_i s' heq; exact absurd heq (hco s')
+      · obtain ⟨v0, rfl⟩ := hval p0 (by simp)
+        obtain ⟨v1, rfl⟩ := hval p1 (by simp)
+        simp only
+        split
+        · split
+          · intro h; cases h
+          · intro h; cases h
+          · rename_i s' heq; exact absurd heq (binaryList_no_panic defs op v0 v1 s')
+        · split
+          · split
+            · intro h; cases h
+            · intro h; cases h
+            · rename_i s' heq; exact absurd heq (binary_no_panic _ _ _ s')
+          · rename_i vs hne heq
+            have hl := coerceAll_length _ _ _ heq
+            match vs, hl, hne with
+            | [a, b], _, hne => exact absurd rfl (hne a b)
+          · intro h; cases h
+          · rename_i s' heq; exact absurd heq (hco s')
+      · intro h; cases h
+
+/-- Packaged: a native call on values ends in `ok` or `err`. -/
+theorem native_call_ok_or_err (defs : ListDefs) (op : Op) (ps : List Obj)
+    (hps : ∀ p ∈ ps, (∃ v, p = .val v) ∨ p = .void) :
+    (∃ o, Native.call defs op ps = .ok o) ∨ (∃ k m, Native.call defs op ps = .err k m) := by
+  cases h : Native.call defs op ps with
+  | ok o => exact Or.inl ⟨o, rfl⟩
+  | err k m => exact Or.inr ⟨k, m, rfl⟩
+  | panic s => exact absurd h (native_call_no_panic defs op ps hps s)
+
+/-- Integer results of a whole native call on two in-range integers are in range. -/
+theorem int_call_results_inRange {defs : ListDefs} {op : Op} {x y z : Int}
+    (hx : inI32 x = true) (hy : inI32 y = true)
+    (h : Native.call defs op [.val (.int x), .val (.int y)] = .ok (.val (.int z))) : inI32 z = true := by
+  by_cases ha : op.arity = 2
+  · rw [call_int_int defs op ha] at h
+    split at h
+    · rename_i v heq
+      cases h
+      exact int_results_inRange hx hy heq
+    · cases h
+    · cases h
+  · unfold Native.call at h
+    have : op.arity ≠ [Obj.val (.int x), Obj.val (.int y)].length := ha
+    simp only [this, ne_eq, not_false_eq_true, if_true, Out.invalid] at h
+    cases h
+
+-- wrong operand types: an error, not a panic
+example : Native.call [] .subtract [.val (.str "a"), .val (.str "b")]
+    = .err "InvalidStoryState" "Operation not available for type." := rfl
+-- void operand
+example : ∃ m, Native.call [] .add [.void, .val (.int 1)] = .err "InvalidStoryState" m := ⟨_, rfl⟩
+-- wrong arity
+example : Native.call [] .add [.val (.int 1)] = .err "InvalidStoryState" "Unexpected number of parameters" := rfl
+-- a string cannot be cast up to a divert target: `err`
+example : Native.call [] .add [.val (.dtarget ⟨[], false⟩), .val (.str "a")]
+    = .err "InvalidStoryState" "Cast not allowed for string" := rfl
+-- a string is never parsed: the other operand is cast up to string
+example : Native.call [] .add [.val (.str "a"), .val (.int 1)] = .ok (.val (.str ("a" ++ intToString 1))) := rfl
+-- the hypothesis of `native_call_no_panic` is instantiated by these calls
+example : ∀ s, Native.call [] .subtract [.val (.str "a"), .val (.str "b")] ≠ .panic s :=
+  native_call_no_panic [] .subtract _ (by
+    intro p hp
+    simp only [List.mem_cons, List.mem_nil_iff, or_false] at hp
+    rcases hp with rfl | rfl <;> exact Or.inl ⟨_, rfl⟩)
+-- and it is needed: a non-value operand next to a list reaches the Rust downcast `unwrap`
+example : Native.call [] .add [.val (.list InkList.empty), .glue]
+    = .panic "native_function_call.rs:binary_list_downcast" := rfl
+
+/-! ### 6. The evaluation stack never panics on underflow -/
+
+theorem popEval_no_panic (s : Core) : ∀ site, s.popEval ≠ .panic site := by
+  intro site
+  unfold Core.popEval
+  split <;> (intro h; cases h)
+
+theorem popEvalMultiple_no_panic (s : Core) (n : Nat) : ∀ site, s.popEvalMultiple n ≠ .panic site := by
+  intro site
+  unfold Core.popEvalMultiple
+  split <;> (intro h; cases h)
+
+/-- Underflow is reported as a story error. -/
+theorem popEval_underflow (s : Core) (h : s.evalStack = []) :
+    s.popEval = .err "InvalidStoryState" "Evaluation stack is empty: nothing to pop." := by
+  unfold Core.popEval
+  rw [h]; rfl
+
+theorem popEvalMultiple_underflow (s : Core) (n : Nat) (h : s.evalStack.length < n) :
+    ∃ m, s.popEvalMultiple n = .err "InvalidStoryState" m := by
+  unfold Core.popEvalMultiple
+  have : ¬ n ≤ s.evalStack.length := by omega
+  simp only [this, if_false, Out.invalid]
+  exact ⟨_, rfl⟩
+
+theorem popEval_ok (s : Core) (o : Obj) (rest : List Obj) (h : s.evalStack = o :: rest) :
+    s.popEval = .ok (o, { s with evalStack := rest }) := by
+  unfold Core.popEval
+  rw [h]
+
+example : ∀ site, (Core.fresh 0).popEval ≠ .panic site := popEval_no_panic _
+example : (Core.fresh 0).popEval = .err "InvalidStoryState" "Evaluation stack is empty: nothing to pop." :=
+  popEval_underflow _ rfl
+example : ∃ m, (Core.fresh 0).popEvalMultiple 2 = .err "InvalidStoryState" m :=
+  popEvalMultiple_underflow _ 2 (by decide)
+
+/-! ### 7. An error inside a step is recorded in the story
+
+  In the model (as in the Rust) `continue_single_step` itself *propagates* a
+  step's `Err`; it is its only caller, the loop of `continue_internal`
+  (`Story.stepLoop`), that catches it with `add_error(msg, false)` and ends the
+  loop normally.  So the recording is a statement about the loop. -/
+
+/-- The model's `continueSingleStep` hands a step's error to its caller unchanged … -/
+theorem continueSingleStep_step_err (st : Story) (k m : String) (st1 : Story)
+    (h : st.runM (step st.env) = (.err k m, st1)) : st.continueSingleStep = (.err k m, st1) := by
+  unfold Story.continueSingleStep
+  rw [h]
+
+/-- … and never turns it into a panic or a fabricated error: an `err` of
+    `continueSingleStep` is the `err` of the step or of the default-choice follow-up. -/
+theorem continueSingleStep_err_origin (st : Story) (k m : String) (st2 : Story)
+    (h : st.continueSingleStep = (.err k m, st2)) :
+    st.runM (step st.env) = (.err k m, st2)
+    ∨ ∃ st1, st.runM (step st.env) = (.ok (), st1)
+        ∧ st1.runM (tryFollowDefaultInvisibleChoice st1.env) = (.err k m, st2) := by
+  unfold Story.continueSingleStep at h
+  split at h
+  · rename_i k' m' st1' heq
+    simp only [Prod.mk.injEq, Out.err.injEq] at h
+    obtain ⟨⟨rfl, rfl⟩, rfl⟩ := h
+    left; exact heq
+  · cases h
+  · rename_i st1 heq
+    right
+    refine ⟨st1, heq, ?_⟩
+    simp only at h
+    split at h
+    · rename_i k' m' st2' heq2
+      simp only [Prod.mk.injEq, Out.err.injEq] at h
+      obtain ⟨⟨rfl, rfl⟩, rfl⟩ := h
+      split at heq2
+      · exact heq2
+      · cases heq2
+    · cases h
+    · exfalso
+      split at h
+      · cases h
+      · split at h
+        · cases h
+        · split at h
+          · split at h <;> cases h
+          · cases h
+
+theorem addError_errors (st : Story) (m : String) :
+    (st.addError m false).core.errors = st.core.errors ++ [errorText st.root st.core m false] := by
+  unfold Story.addError
+  simp only [Bool.false_eq_true, if_false, Story.setCore, Story.core, addErrorCore]
+  rw [forceEnd_errors]
+  rfl
+
+theorem addError_hasError (st : Story) (m : String) : (st.addError m false).state.hasError = true := by
+  have h := addError_errors st m
+  unfold Story.core at h
+  unfold StoryState.hasError Core.hasError
+  rw [h]
+  simp
+
+/-- **step_error_recorded.**  When a single step of the loop ends in `err k m`
+    (the verification budget not being exhausted), the loop stops with `ok`
+    (`LoopEnd.error`, neither an `err` nor a `panic`), the message is appended to
+    the story's error list, the story has an error and cannot continue. -/
+theorem step_error_recorded (b : Option Nat) (fuel steps : Nat) (st : Story) (k m : String) (st1 : Story)
+    (hf : (st.fuel == some 0) = false)
+    (h : ({ st with fuel := st.fuel.map (· - 1) } : Story).continueSingleStep = (.err k m, st1)) :
+    stepLoop b (fuel + 1) steps st = (.ok .error, st1.addError m false)
+    ∧ (st1.addError m false).core.errors = st1.core.errors ++ [errorText st1.root st1.core m false]
+    ∧ (st1.addError m false).state.hasError = true
+    ∧ (st1.addError m false).canContinue = false := by
+  refine ⟨?_, addError_errors st1 m, addError_hasError st1 m, addError_cannot_continue st1 m⟩
+  unfold stepLoop
+  simp only [hf, Bool.false_eq_true, if_false, h]
+
+/-- The same, from the interpreter step proper. -/
+theorem step_error_recorded' (b : Option Nat) (fuel steps : Nat) (st : Story) (k m : String) (st1 : Story)
+    (hf : (st.fuel == some 0) = false)
+    (h : ({ st with fuel := st.fuel.map (· - 1) } : Story).runM (step st.env) = (.err k m, st1)) :
+    stepLoop b (fuel + 1) steps st = (.ok .error, st1.addError m false)
+    ∧ (st1.addError m false).state.hasError = true
+    ∧ (st1.addError m false).canContinue = false := by
+  have h' := continueSingleStep_step_err ({ st with fuel := st.fuel.map (· - 1) } : Story) k m st1 h
+  obtain ⟨a, _, c, d⟩ := step_error_recorded b fuel steps st k m st1 hf h'
+  exact ⟨a, c, d⟩
+
+/-- Whatever a step does, the loop around it never ends in an `err` outcome. -/
+theorem loop_never_errs (b : Option Nat) (fuel steps : Nat) (st : Story) (k m : String) (s1 : Story) :
+    stepLoop b fuel steps st ≠ (.err k m, s1) := C17.stepLoop_no_err b fuel steps st k m s1
+
+
+/-! ### Concrete stories for the non-vacuity examples -/
+
+/-- A program whose first instruction is `+` on an empty evaluation stack. -/
+def exRoot : Obj := .container none 0 [.native .add] []
+
+def exStory : Story :=
+  { root := exRoot, defs := [], state := StoryState.fresh 0, snapshot := none,
+    recCount := 0, asyncActive := false, sawUnsafe := false, validated := false,
+    allowFallbacks := false, handler := false, observers := [], externals := [], events := [],
+    lines := 0, fuel := none, stepClock := false }
+
+/-- The same story after a recorded error. -/
+def exFaulted : Story := exStory.addError "boom" false
+
+theorem exFaulted_hasError : exFaulted.state.hasError = true := addError_hasError _ _
+
+theorem exFaulted_quiescent : C17.Quiescent exFaulted :=
+  ⟨(addError_snapshot _ _ _).trans rfl, (addError_same exStory "boom" false).recCount.trans rfl,
+   (addError_same exStory "boom" false).asyncActive.trans rfl, (addError_sawUnsafe _ _ _).trans rfl⟩
+
+-- the step of `exStory` (a `+` with nothing on the evaluation stack) ends in `err`
+example : ∃ m st1, exStory.runM (step exStory.env) = (.err "InvalidStoryState" m, st1) := ⟨_, _, rfl⟩
+-- so the hypotheses of `step_error_recorded'` are satisfiable, and the loop records the error
+example : ∃ st', stepLoop none 1 0 exStory = (.ok .error, st') ∧ st'.state.hasError = true
+    ∧ st'.canContinue = false :=
+  ⟨_, step_error_recorded' none 0 0 exStory "InvalidStoryState" _ _ rfl rfl⟩
+example : exStory.canContinue = true := rfl
+
+/-! ### 8. A recorded error is reported to the host -/
+
+/-- **error_is_reported.**  A story with a recorded error: without a handler the
+    delivery block fails with a `StoryError` that quotes the first error, and
+    nothing is cleared; with a handler every recorded error (then every warning)
+    is handed to the handler exactly once, in order, and the lists are emptied. -/
+theorem error_is_reported (st : Story) (he : st.state.hasError = true) :
+    (st.handler = false → st.deliver = (.err "InvalidStoryState" (noHandlerMessage st.state), st))
+    ∧ (st.handler = true → ∃ st', st.deliver = (.ok (), st')
+        ∧ st'.events = (C13.handlerEvents st.core.errors st.state.warnings).reverse ++ st.events
+        ∧ st.core.errors ≠ []
+        ∧ st'.core.errors = [] ∧ st'.state.warnings = []) := by
+  constructor
+  · intro hh
+    exact C13.deliver_no_handler_error st hh he
+  · intro hh
+    obtain ⟨st', h1, h2, h3, h4, _⟩ := C13.deliver_handler_pending st hh (by simp [he])
+    refine ⟨st', h1, h2, ?_, h3, h4⟩
+    intro hnil
+    unfold StoryState.hasError Core.hasError at he
+    unfold Story.core at hnil
+    simp [hnil] at he
+
+/-- and until then the story stays stopped. -/
+theorem error_blocks_continue (st : Story) (he : st.state.hasError = true) (fuel : Nat)
+    (ha : st.asyncActive = false) (b : Option Nat) :
+    st.continueInternal b fuel = (.err "InvalidStoryState" cannotContinueMsg, st) := by
+  unfold Story.continueInternal
+  simp [ha, C13.error_stops_story st he, Out.invalid]
+
+example : exFaulted.handler = false ∧ exFaulted.state.hasError = true := ⟨rfl, exFaulted_hasError⟩
+example : exFaulted.deliver = (.err "InvalidStoryState" (noHandlerMessage exFaulted.state), exFaulted) :=
+  (error_is_reported exFaulted exFaulted_hasError).1 rfl
+example : ∃ st', ({ exFaulted with handler := true } : Story).deliver = (.ok (), st') ∧ st'.core.errors = [] := by
+  obtain ⟨st', h1, _, _, h4, _⟩ :=
+    (error_is_reported ({ exFaulted with handler := true } : Story) exFaulted_hasError).2 rfl
+  exact ⟨st', h1, h4⟩
+
+/-! ### 9. Reset after an error -/
+
+theorem blankWith_no_error (st : Story) (seed : Int) :
+    (C17.blankWith st seed).state.hasError = false ∧ (C17.blankWith st seed).state.hasWarning = false :=
+  ⟨rfl, rfl⟩
+
+/-- **reset_after_error_fresh.**  Resetting a quiescent story that has errors
+    recorded gives exactly the freshly constructed story: `reset_globals` run on
+    the blank state, which has no error and no warning. -/
+theorem reset_after_error_fresh (st : Story) (seed : Int) (hq : C17.Quiescent st)
+    (_he : st.state.hasError = true) :
+    st.resetState seed = (C17.blankWith st seed).resetGlobals
+    ∧ (C17.blankWith st seed).state.hasError = false
+    ∧ (C17.blankWith st seed).state.hasWarning = false :=
+  ⟨C17.reset_eq_fresh st seed hq, rfl, rfl⟩
+
+/-- Nothing of the old state survives: the reset story does not depend on it. -/
+theorem reset_independent_of_state (st : Story) (seed : Int) (hq : C17.Quiescent st) (s' : StoryState) :
+    ({ st with state := s' } : Story).resetState seed = st.resetState seed := by
+  have hq' : C17.Quiescent ({ st with state := s' } : Story) := ⟨hq.1, hq.2, hq.3, hq.4⟩
+  rw [C17.reset_eq_fresh _ seed hq', C17.reset_eq_fresh st seed hq]
+  rfl
+
+/-- Corollary: if the freshly constructed story has no errors, the reset story has none. -/
+theorem reset_after_error_no_errors (st : Story) (seed : Int) (hq : C17.Quiescent st)
+    (he : st.state.hasError = true)
+    (hfresh : ((C17.blankWith st seed).resetGlobals).2.state.hasError = false) :
+    (st.resetState seed).2.state.hasError = false := by
+  rw [(reset_after_error_fresh st seed hq he).1]; exact hfresh
+
+/-- A program without global declarations: the reset story is error-free outright. -/
+theorem reset_after_error_no_globals (st : Story) (seed : Int) (hq : C17.Quiescent st)
+    (he : st.state.hasError = true) (hg : (st.root.lookupName "global decl").isSome = false) :
+    (st.resetState seed).1 = .ok () ∧ (st.resetState seed).2.state.hasError = false
+    ∧ (st.resetState seed).2.core.errors = [] := by
+  rw [(reset_after_error_fresh st seed hq he).1]
+  unfold Story.resetGlobals
+  have hg' : ((C17.blankWith st seed).root.lookupName "global decl").isSome = false := hg
+  simp only [hg', Bool.false_eq_true, if_false]
+  exact ⟨by trivial, by trivial, by trivial⟩
+
+example : (exFaulted.resetState 7).1 = .ok () ∧ (exFaulted.resetState 7).2.state.hasError = false
+    ∧ (exFaulted.resetState 7).2.core.errors = [] :=
+  reset_after_error_no_globals exFaulted 7 exFaulted_quiescent exFaulted_hasError rfl
+example : exFaulted.resetState 7 = (C17.blankWith exFaulted 7).resetGlobals :=
+  (reset_after_error_fresh exFaulted 7 exFaulted_quiescent exFaulted_hasError).1
+
 end C04
 end Ink
